@@ -781,3 +781,51 @@ B('c16i_expiry_keyword_naive_local_named', ['C16'], 'R16.g', _DTIMPORT,
 B('c16i_expiry_accessor_not_the_entry', ['C16'], 'R16.g', _DTIMPORT,
   (CK, _SETEXP_TAIL, _SETEXP_TAIL + "\n    def get_expires(self):\n        return datetime.now(timezone.utc)\n"),
   (CK, _SAVE, "        save_cookie_kwargs['expires'] = cookie.get_expires()\n        cookie.save_cookie(response, **save_cookie_kwargs)\n"))
+
+# ---------------------------------------------------------------- round x: the codec in a new private module; a property standing for the
+# "expiry is a number" test; the save_cookie keywords from a table of (keyword, attribute) rows
+_CODEC_MOD = 'clastic/middleware/_codec.py'
+_QUOTE_BODY = _QUOTE + "        ret = b''.join(base64.b64encode(ret).splitlines()).strip()\n        return ret\n"
+_PACK = ("def to_wire(serializer, obj):\n    ret = serializer.dumps(obj)\n    ret = ret.encode('utf8')\n"
+         "    ret = b''.join(base64.b64encode(ret).splitlines()).strip()\n    return ret\n\n\n")
+_UNPACK = ("def from_wire(serializer, data):\n    try:\n        data = base64.b64decode(data)\n        data = serializer.loads(data.decode('utf8'))\n"
+           "    except Exception as e:\n        raise UnquoteError()\n    return data\n")
+_UNPACK_BARE = ("def from_wire(serializer, data):\n    data = base64.b64decode(data)\n    return serializer.loads(data.decode('utf8'))\n")
+
+
+def _codec_module(unpack=_UNPACK, drop_import=True):
+    return ((_CODEC_MOD, '__NEW__', "import base64\n\nfrom secure_cookie.cookie import UnquoteError\n\n\n" + _PACK + unpack),
+            (CK, 'import base64\n', '' if drop_import else 'import base64\n'),
+            (CK, '\nfrom .core import Middleware\n', '\nfrom .core import Middleware\nfrom ._codec import to_wire as _to_wire, from_wire as _from_wire\n'),
+            (CK, _QUOTE_BODY, "        return _to_wire(cls.serialization_method, value)\n"),
+            (CK, _UNQUOTE, "        return _from_wire(cls.serialization_method, value)"))
+
+
+T('c16x_codec_in_private_module', ['C16'], *_codec_module())
+T('c16x_codec_in_private_module_import_kept', ['C16'], *_codec_module(drop_import=False))
+B('c16x_codec_in_private_module_unguarded', ['C16'], 'R16.b', *_codec_module(unpack=_UNPACK_BARE))
+B('c16x_codec_in_private_module_other_error', ['C16'], 'R16.b', *_codec_module(unpack=_UNPACK.replace('raise UnquoteError()', 'raise ValueError()')))
+
+_STAMP_PROP = ("        if self._numeric_expiry and '_expires' not in cookie:\n"
+               "            cookie['_expires'] = time.time() + self.expiry\n")
+
+
+def _prop(body):
+    return (CK, _GET_RANDOM, "    @property\n    def _numeric_expiry(self):\n" + body + "\n" + _GET_RANDOM)
+
+
+T('c16x_stamp_property_guard', ['C16'], (CK, _STAMP, _STAMP_PROP),
+  _prop("        if self.expiry != NEVER:\n            return self.expiry != SESSION\n        return False\n"))
+T('c16x_stamp_property_guard_one_expression', ['C16'], (CK, _STAMP, _STAMP_PROP),
+  _prop("        return not (self.expiry == NEVER or self.expiry == SESSION)\n"))
+B('c16x_stamp_property_guard_one_marker', ['C16'], 'R16.d', (CK, _STAMP, _STAMP_PROP),
+  _prop("        if self.expiry != NEVER:\n            return True\n        return False\n"))
+B('c16x_stamp_property_guard_falls_to_true', ['C16'], 'R16.d', (CK, _STAMP, _STAMP_PROP),
+  _prop("        if self.expiry != NEVER:\n            return self.expiry != SESSION\n        return True\n"))
+B('c16x_stamp_property_is_plain_method', ['C16'], 'R16.d', (CK, _STAMP, _STAMP_PROP),
+  (CK, _GET_RANDOM, "    def _numeric_expiry(self):\n        return self.expiry != NEVER and self.expiry != SESSION\n\n" + _GET_RANDOM))
+
+_ROWS = "_SAVE_ATTRS = (('key', '%s'), ('domain', 'domain'), ('path', 'path'), ('secure', 'secure'), ('httponly', 'http_only'))\n"
+_KWARGS_TABLE = "        save_cookie_kwargs = {kwarg: getattr(self, attr_name) for kwarg, attr_name in _SAVE_ATTRS}\n"
+T('c16x_save_kwargs_from_table', ['C16'], (CK, 'NOW = \'now\'\n', 'NOW = \'now\'\n' + _ROWS % 'cookie_name'), (CK, _KWARGS, _KWARGS_TABLE))
+B('c16x_save_kwargs_from_table_wrong_name', ['C16'], 'R16.d', (CK, 'NOW = \'now\'\n', 'NOW = \'now\'\n' + _ROWS % 'arg_name'), (CK, _KWARGS, _KWARGS_TABLE))
